@@ -78,11 +78,11 @@ def _liveness(ctx):
     r = tlc.run(ctx, "C13_MC", "gen_live.cfg", cfg_text=cfg, workers=2, timeout=900, name="live")
     if not r.ok:
         raise MachineryError("design-level failure in C13 liveness: %s violated\n%s" % (r.violated, r.out[-2500:]))
-    # the same without fairness must fail (the property is not vacuous)
-    cfg2 = cfg.replace("SPECIFICATION FairSpec", "SPECIFICATION Spec")
-    r2 = tlc.run(ctx, "C13_MC", "gen_live_nofair.cfg", cfg_text=cfg2, workers=2, timeout=900, name="livenf")
-    if r2.ok:
-        raise MachineryError("vacuity guard: WaitReleased holds without fairness")
+    # not vacuous: an identify in flight is reachable in this instance (probe expected to be violated)
+    cfg2 = tlc.subst_cfg("C13_MC.cfg", consts, replace=[(INV, "INVARIANTS ReachRun"), (PROPS, "")])
+    r2 = tlc.run(ctx, "C13_MC", "gen_live_reach.cfg", cfg_text=cfg2, workers=1, timeout=300, name="livereach")
+    if r2.ok or r2.violated != "ReachRun":
+        raise MachineryError("vacuity guard: no identify in flight is reachable in the liveness instance")
     return r.distinct, r.generated
 
 
@@ -96,9 +96,10 @@ def _reach(args):
     return probe
 
 
-def _edge_stats(edges):
+def _edge_stats(g):
     st = collections.Counter()
-    for _s, op, t in edges:
+    for sk, op, tk in g.edges:
+        _s, t = g.states[sk], g.states[tk]
         n = op["name"]
         st[n] += 1
         if n in ("push", "done"):
@@ -142,7 +143,7 @@ def _replay_instance(args):
     g = graph.Graph(r.inits, r.edges)
     if g.n_edges() == 0:
         raise MachineryError("no edges printed for " + name)
-    stats = _edge_stats(g.edges)
+    stats = _edge_stats(g)
     walks = g.covering_walks(seed=ctx.seed, max_len=40)
     # the lifetime probe at the end of a walk is destructive: add a shortest walk to every state that is not
     # yet the end of one, so that every model state is probed
